@@ -14,7 +14,13 @@ use datafusion_physical_expr::expressions::{
 };
 use datafusion_physical_expr::utils::{Guarantee, LiteralGuarantee};
 use datafusion_physical_expr::PhysicalExpr;
-use datafusion_pruning::PruningPredicateBuilder;
+use datafusion::datasource::listing::PartitionedFile;
+use datafusion_common::stats::Precision;
+use datafusion_common::pruning::PrunableStatistics;
+use datafusion_common::{ColumnStatistics, Statistics};
+use datafusion_physical_expr::simplifier::PhysicalExprSimplifier;
+use datafusion_physical_plan::metrics::Count;
+use datafusion_pruning::{FilePruner, PruningPredicateBuilder};
 use serde_json::{json, Map, Value};
 use std::collections::HashSet;
 use std::panic::{catch_unwind, AssertUnwindSafe};
@@ -174,7 +180,8 @@ fn build(e: &Value, cx: &Cx, want: Option<&DataType>) -> R<(Arc<dyn PhysicalExpr
             let (x, t) = build(&e["e"], cx, None)?;
             let mut list = vec![];
             for l in e["list"].as_array().ok_or("in list")? {
-                list.push(build(l, cx, Some(&t))?.0);
+                let (x, xt) = build(l, cx, Some(&t))?;
+                list.push(if xt != t { Arc::new(CastExpr::new(x, t.clone(), None)) as Arc<dyn PhysicalExpr> } else { x });
             }
             let neg = e["neg"].as_bool().unwrap_or(false);
             (in_list(x, list, &neg, &cx.schema).map_err(|e| e.to_string())?, DataType::Boolean)
@@ -189,6 +196,7 @@ fn build(e: &Value, cx: &Cx, want: Option<&DataType>) -> R<(Arc<dyn PhysicalExpr
                     1 => 'a',
                     2 => 'b',
                     3 => 'c',
+                    102 => '\\',
                     _ => return Err("bad pattern code".into()),
                 });
             }
@@ -301,6 +309,31 @@ impl<'a> PruningStatistics for Stats<'a> {
     }
 }
 
+/// datafusion_common::Statistics of one generated container: known -> Exact, unknown -> Absent or a misleading Inexact value
+fn statistics_of(k: &Value, cx: &Cx, inexact: bool) -> R<Statistics> {
+    let mut cs = vec![];
+    for (i, t) in cx.tys.iter().enumerate() {
+        let d = dtype(t)?;
+        let st = &k["cols"][i];
+        let bound = |w: &str| -> R<Precision<ScalarValue>> {
+            let v = scalar(&st[w], &d)?;
+            Ok(if st[format!("{w}K")].as_bool().unwrap_or(false) { Precision::Exact(v) } else if inexact { Precision::Inexact(v) } else { Precision::Absent })
+        };
+        let nc = st["nc"].as_u64().unwrap_or(0) as usize;
+        let mut c = ColumnStatistics::new_unknown();
+        c.min_value = bound("min")?;
+        c.max_value = bound("max")?;
+        c.null_count = if st["ncK"].as_bool().unwrap_or(false) { Precision::Exact(nc) } else if inexact { Precision::Inexact(nc) } else { Precision::Absent };
+        cs.push(c);
+    }
+    let rc = k["rc"].as_u64().unwrap_or(0) as usize;
+    Ok(Statistics {
+        num_rows: if k["rcK"].as_bool().unwrap_or(false) { Precision::Exact(rc) } else if inexact { Precision::Inexact(rc) } else { Precision::Absent },
+        total_byte_size: Precision::Absent,
+        column_statistics: cs,
+    })
+}
+
 fn tys_json(cx: &Cx) -> Value {
     Value::Array(cx.tys.iter().map(|t| json!(class_of(t))).collect())
 }
@@ -329,7 +362,16 @@ fn guarantee_events(c: &Value, cx: &Cx, expr: &Arc<dyn PhysicalExpr>, out: &mut 
 fn record(c: &Value, out: &mut Vec<Value>, counts: &mut Map<String, Value>) -> R<()> {
     let cols = c["cols"].as_array().ok_or("cols")?;
     let cx = Cx::new(cols)?;
-    let (expr, _) = build(&c["pred"], &cx, None)?;
+    let (expr0, _) = build(&c["pred"], &cx, None)?;
+    // optionally the production pre-processing: PhysicalExprSimplifier (unwrap-cast, constant folding, NOT pushdown ...)
+    let expr = if c["simplify"].as_bool().unwrap_or(false) {
+        match catch_unwind(AssertUnwindSafe(|| PhysicalExprSimplifier::new(&cx.schema).simplify(expr0.clone()))) {
+            Ok(Ok(e)) => e,
+            _ => expr0.clone(),
+        }
+    } else {
+        expr0.clone()
+    };
     let mut bump = |k: &str| {
         let n = counts.get(k).and_then(|v| v.as_u64()).unwrap_or(0);
         counts.insert(k.to_string(), json!(n + 1));
@@ -354,8 +396,32 @@ fn record(c: &Value, out: &mut Vec<Value>, counts: &mut Map<String, Value>) -> R
     if pp.always_true() {
         bump("always_true");
     }
+    let via = c["via"].as_str().unwrap_or("direct");
+    let inexact = c["inexact"].as_bool().unwrap_or(false);
     let stats = Stats { cx: &cx, containers, absent: &c["absent"] };
-    let keep = match catch_unwind(AssertUnwindSafe(|| pp.prune(&stats))) {
+    let keep = match catch_unwind(AssertUnwindSafe(|| -> datafusion_common::Result<Vec<bool>> {
+        match via {
+            "prunable" => {
+                let sts: Vec<Arc<Statistics>> = containers.iter().map(|k| statistics_of(k, &cx, inexact).map(Arc::new)).collect::<R<Vec<_>>>().map_err(datafusion_common::DataFusionError::Execution)?;
+                pp.prune(&PrunableStatistics::new(sts, cx.schema.clone()))
+            }
+            "file" => {
+                // one FilePruner per container (file-level statistics)
+                let mut keep = vec![];
+                for k in containers {
+                    let st = statistics_of(k, &cx, inexact).map_err(datafusion_common::DataFusionError::Execution)?;
+                    let mut pf = PartitionedFile::new("f.parquet", 1);
+                    pf.statistics = Some(Arc::new(st));
+                    keep.push(match FilePruner::try_new(expr.clone(), &cx.schema, &pf, Count::new()) {
+                        Some(mut fp) => !fp.should_prune()?,
+                        None => true,
+                    });
+                }
+                Ok(keep)
+            }
+            _ => pp.prune(&stats),
+        }
+    })) {
         Ok(Ok(k)) => k,
         Ok(Err(_)) => {
             bump("prune_err");
@@ -378,12 +444,15 @@ fn record(c: &Value, out: &mut Vec<Value>, counts: &mut Map<String, Value>) -> R
         let mut st = k.clone();
         for (i, col) in st["cols"].as_array_mut().unwrap().iter_mut().enumerate() {
             for w in ["min", "max", "nc"] {
-                if c["absent"][w][i].as_bool().unwrap_or(false) {
+                if via == "direct" && c["absent"][w][i].as_bool().unwrap_or(false) {
                     col[format!("{w}K")] = json!(false);
                 }
             }
+            if via != "direct" {
+                col["kK"] = json!(false);
+            }
         }
-        if c["absent"]["rc"].as_bool().unwrap_or(false) {
+        if via == "direct" && c["absent"]["rc"].as_bool().unwrap_or(false) {
             st["rcK"] = json!(false);
         }
         let rows = st.as_object_mut().unwrap().remove("rows");
@@ -452,7 +521,9 @@ fn confirm(ev: &Value, cases: &std::collections::HashMap<String, Value>) -> R<Op
     };
     match ev["cls"].as_str().unwrap_or("") {
         "guar" => {
-            let gs = LiteralGuarantee::analyze(&expr);
+            let simplified = cases.get(&ev["case"].to_string()).is_some_and(|c| c["simplify"].as_bool().unwrap_or(false));
+            let aexpr = if simplified { PhysicalExprSimplifier::new(&cx.schema).simplify(expr.clone()).unwrap_or(expr.clone()) } else { expr.clone() };
+            let gs = LiteralGuarantee::analyze(&aexpr);
             let g = &ev["g"];
             let ci = g["col"].as_u64().unwrap() as usize - 1;
             let x = &rows[hit][ci];
